@@ -449,7 +449,7 @@ def apply_edit(prog, edit, tag):
 # ------------------------------------------------------------------------------------------
 
 def program_strategy(max_fns=6, two_modules=True, allow_hidden=True, allow_explicit=True, allow_cluster=True,
-                     str_sets=True, allow_hidden_plain=False, allow_alias=True, explicit_f0=False, value_heavy=False, allow_fdef=False, allow_dictset=False, allow_init=False, allow_query=False, allow_tuplist=False, allow_declared=False):
+                     str_sets=True, allow_hidden_plain=False, allow_alias=True, explicit_f0=False, value_heavy=False, allow_fdef=False, allow_dictset=False, allow_init=False, allow_query=False, allow_tuplist=False, allow_declared=False, helper_heavy=False):
     from hypothesis import strategies as st
 
     small = st.integers(0, 9)
@@ -460,7 +460,7 @@ def program_strategy(max_fns=6, two_modules=True, allow_hidden=True, allow_expli
         if allow_init and draw(st.integers(0, 2)) == 0:
             # some definitions live in the package's own __init__.py (same package as its sub-modules)
             modules = [INIT] + modules
-        nf = draw(st.integers(2, max_fns))
+        nf = 3 if helper_heavy else draw(st.integers(2, max_fns))
         nv = draw(st.integers(3, 5)) if value_heavy else draw(st.integers(0, 4))
         defs = []
         tiny = value_heavy or draw(st.booleans())  # few distinct values: equal-valued variables are frequent
@@ -478,7 +478,7 @@ def program_strategy(max_fns=6, two_modules=True, allow_hidden=True, allow_expli
             defs.append({"k": "var", "mod": draw(st.sampled_from(modules)), "name": "G%d" % i, "vtype": vt, "value": val})
         fnames = ["f%d" % i for i in range(nf)]
         fmods = {n: draw(st.sampled_from(modules)) for n in fnames}
-        fmem = {n: (True if n == "f0" else draw(st.sampled_from([True, True, True, False]))) for n in fnames}
+        fmem = {n: (True if n == "f0" else (False if helper_heavy else draw(st.sampled_from([True, True, True, False])))) for n in fnames}
         extra = []
         for n in fnames:
             if allow_alias and draw(st.integers(0, 5)) == 0:
@@ -533,6 +533,8 @@ def program_strategy(max_fns=6, two_modules=True, allow_hidden=True, allow_expli
             memento = fmem[n]
             has_k = draw(st.integers(0, 2)) == 0
             has_kw = draw(st.integers(0, 3)) == 0
+            if helper_heavy and not memento:
+                has_k, has_kw = True, draw(st.booleans())
             d = {"k": "fn", "mod": fmods[n], "name": n, "memento": memento, "version": None, "cluster": None,
                  "pdef": draw(small) if has_k else None, "kwdef": draw(small) if has_kw else None, "fdef": ffdef.get(n)}
             if memento and allow_explicit and (n != "f0" or explicit_f0) and draw(st.integers(0, 4)) == 0:
@@ -541,6 +543,13 @@ def program_strategy(max_fns=6, two_modules=True, allow_hidden=True, allow_expli
                 d["cluster"] = "c"
             d["base"] = simple(has_k, has_kw, 1)
             body = simple(has_k, has_kw)
+            if helper_heavy:
+                # the root calls both plain helpers; the helpers' results depend on their default parameter values
+                if memento:
+                    body = {"e": "add", "a": {"e": "add", "a": body, "b": {"e": "call", "f": "f1"}}, "b": {"e": "call", "f": "f2"}}
+                else:
+                    body = {"e": "add", "a": body, "b": {"e": "add", "a": {"e": "pk"}, "b": {"e": "pkw"}}}
+                    d["base"] = {"e": "add", "a": d["base"], "b": {"e": "pk"}}
             for _ in range(draw(st.integers(0, 2))):
                 tgt = draw(st.sampled_from(call_targets))
                 # hidden calls only to memento functions: a dynamically dispatched *plain* helper can be neither
